@@ -212,15 +212,10 @@ def one_exec(cfg, chooser):
         async def driver():
             simtask = asyncio.create_task(sim.circuit.run_forever())
             await sim.circuit.wait_init()
-            prev_t = None
-            for i, (t, m) in enumerate(arr):
-                if stop is not None and t > stop:
-                    break
-                if t != prev_t:
-                    await loop.sleep_until_us(t * TICK)
-                elif cfg['yb']:
-                    await asyncio.sleep(0)
-                prev_t = t
+            # arrivals are sent from timer callbacks (a task woken by a timer runs one loop
+            # iteration later and could never precede a timer callback of the same instant)
+            def send_one(i):
+                t, m = arr[i]
                 n0 = len(log)
                 try:
                     if v == 'implicit':
@@ -230,16 +225,41 @@ def one_exec(cfg, chooser):
                 except edzed.EdzedInvalidState as err:
                     if stop is not None and t == stop:
                         obs['sync'].append(None)    # lost the race against the stop: fine
-                        continue
+                        return
                     obs['errors'].append(('send-refused', repr(err)))
-                    continue
+                    return
                 except Exception as err:    # pylint: disable=broad-except
                     obs['errors'].append(('send-raised', repr(err)))
-                    continue
+                    return
                 obs['sync'].append(len(log) - n0)
+
+            groups = []
+            for i, (t, m) in enumerate(arr):
+                if stop is not None and t > stop:
+                    break
+                if groups and arr[groups[-1][0]][0] == t:
+                    groups[-1].append(i)
+                else:
+                    groups.append([i])
+            for grp in groups:
+                done = loop.create_future()
+
+                def run_group(grp=grp, k=0, done=done):
+                    send_one(grp[k])
+                    if k + 1 < len(grp):
+                        if cfg['yb']:
+                            loop.call_soon(run_group, grp, k + 1, done)
+                        else:
+                            run_group(grp, k + 1, done)
+                    else:
+                        done.set_result(None)
+                loop.call_at(arr[grp[0]][0] * TICK / 1_000_000, run_group)
+                await done
             end = horizon if stop is None else stop
-            if loop.now_us < end * TICK:
-                await loop.sleep_until_us(end * TICK)
+            if loop.now_us < end * TICK or stop is not None:
+                # the stop request too comes from a timer callback of that instant
+                await loop.call_at_us(max(end * TICK, loop.now_us), sim.circuit.abort,
+                                      asyncio.CancelledError('shutdown'))
             try:
                 await sim.circuit.shutdown()
             except BaseException as err:    # pylint: disable=broad-except
